@@ -350,8 +350,8 @@ func c17Limits(c *mon.Ctx) {
 			if !c.Mine(n) {
 				continue
 			}
-			if lc.field == "room_id" && t.Domainless {
-				continue
+			if lc.field == "room_id" && t.Domainless && lc.runes <= 255 {
+				continue // what else a domainless room ID has to look like is not this check's business; its length is
 			}
 			if lc.field == "sender" && ver == gmsl.RoomVersionPseudoIDs {
 				continue
@@ -377,6 +377,15 @@ func c17Limits(c *mon.Ctx) {
 			case "room_id":
 				fixed := utf8.RuneCountInString("!:a.example")
 				ps.RoomID = "!" + padRunes(lc.runes-fixed, lc.width) + ":a.example"
+				if t.Domainless {
+					ps.RoomID = "!" + padRunes(lc.runes-1, lc.width)
+				}
+			}
+			// a second field that exceeds only the byte limit must not turn the refusal into "persistable"
+			also := ""
+			if lc.runes > 255 && lc.field != "type" && n%3 == 0 {
+				ps.Type = padRunes(200, 2) // 200 code points, 400 bytes
+				also = "+type-over-255-bytes"
 			}
 			val := map[string]string{"type": ps.Type, "sender": ps.Sender, "room_id": ps.RoomID}[lc.field]
 			if lc.field == "state_key" {
@@ -389,7 +398,7 @@ func c17Limits(c *mon.Ctx) {
 			case len(val) > 255:
 				expect = "persistable"
 			}
-			name := fmt.Sprintf("limit:%s:%s:%dx%d", ver, lc.field, utf8.RuneCountInString(val), lc.width)
+			name := fmt.Sprintf("limit:%s:%s:%dx%d%s", ver, lc.field, utf8.RuneCountInString(val), lc.width, also)
 			c.Case(name, map[string]any{"version": ver, "field": lc.field, "code_points": utf8.RuneCountInString(val), "bytes": len(val), "expect": expect}, func() {
 				if d := utf8.RuneCountInString(val) - 255; d >= -2 && d <= 2 || len(val)-255 >= -2 && len(val)-255 <= 2 {
 					c.Nontrivial(name)
@@ -425,6 +434,9 @@ func c17Limits(c *mon.Ctx) {
 				}
 				rv := ref.MustParse(bev.JSON())
 				rv.Set(lc.field, ref.S(val))
+				if also != "" {
+					rv.Set("type", ref.S(ps.Type))
+				}
 				uev, err := impl.NewEventFromUntrustedJSON(gen.Plain().Bytes(rv))
 				got = classify(uev, err)
 				c.Count("limit_receipt_" + expect)
@@ -523,6 +535,21 @@ func c17Limits(c *mon.Ctx) {
 					c.Count("limit_receipt_json_" + want)
 					if got != want {
 						c.Failf("limits:receipt:json:"+want+"-reported-"+got, "NewEventFromUntrustedJSON(v%s) of an event of %d bytes (%d-byte characters): %s (%v), want %s", ver, len(text), width, got, err, want)
+					}
+					// the same bytes with a content hash that does not match: what arrives is as large as before, although
+					// the event the parser would keep (the redacted form) is small
+					bad := ref.MustParse(text)
+					bad.Get("hashes").Set("sha256", ref.S("AAAAAAAAAAAAAAAAAAAAAAAAAAAAAAAAAAAAAAAAAAA"))
+					badText := ref.Canon(bad)
+					if len(badText) == len(text) {
+						_, berr := impl.NewEventFromUntrustedJSON(badText)
+						c.Count("limit_receipt_json_hash_failing_" + want)
+						if want == "refused" && berr == nil {
+							c.Failf("limits:receipt:json:oversize-accepted-when-hash-fails", "NewEventFromUntrustedJSON(v%s) accepts an event of %d bytes because its content hash does not match (the size is checked on the redacted copy)", ver, len(badText))
+						}
+						if want == "ok" && berr != nil {
+							c.Failf("limits:receipt:json:ok-reported-refused", "an event of %d bytes with a failing content hash is refused (v%s): %v", len(badText), ver, berr)
+						}
 					}
 					if expect == "ok" && ev != nil {
 						back, err := impl.NewEventFromUntrustedJSON(ev.JSON())
